@@ -33,6 +33,9 @@ def sub_ids(cfg):
         for s in m.get("subs", []):
             if s not in subs:
                 subs.append(s)
+        for d in m.get("dz", []) + m.get("defdz", []):
+            if d["sub"] not in subs:
+                subs.append(d["sub"])
     return {s: i for i, s in enumerate(subs)}
 
 
